@@ -48,8 +48,9 @@ func eCall(recv *Expr, fn string, args ...*Expr) *Expr {
 
 // TplFile is one template file of a tree.
 type TplFile struct {
-	Use   string // layout name as written in @use("…"), "" = none
-	Nodes []*Node
+	Use     string // layout name as written in @use("…"), "" = none
+	UseLast bool   // @use is written behind the other statements of the file (it means the same)
+	Nodes   []*Node
 }
 
 type tplEnv struct {
@@ -188,10 +189,13 @@ func printNode(sb *strings.Builder, n *Node) {
 
 func printFile(f *TplFile) string {
 	var sb strings.Builder
-	if f.Use != "" {
+	if f.Use != "" && !f.UseLast {
 		sb.WriteString(`@use("` + f.Use + `")`)
 	}
 	sb.WriteString(printNodes(f.Nodes))
+	if f.Use != "" && f.UseLast {
+		sb.WriteString(`@use("` + f.Use + `")`)
+	}
 	return sb.String()
 }
 
